@@ -13,7 +13,9 @@ META = {
     "title": "Concurrent writers are detected, never silently clobbered",
     "level_text": ("Theorems in Coq over a test-and-set cell model, for ALL interleavings (induction over event lists, pigeonhole): a guarded write is "
                    "applied iff the share still holds the surveyed version; a refused write changes nothing and marks the writer surprised, "
-                   "permanently; with (writers+1)*k <= N some version occupies >= k share numbers in every reachable state.  The cell semantics "
+                   "permanently; with (writers+1)*k <= N some version occupies >= k share numbers in every reachable state; and at trace level "
+                   "(ghost dirty sets, invariant over all interleavings of writers that survey once per publish) an applied write never lands on a "
+                   "share another writer replaced since the survey.  The cell semantics "
                    "are compared with the real StorageServer.slot_testv_and_readv_and_writev on random and exhaustive interleavings; real "
                    "concurrent publishes by several clients are run on a grid with the property's rules as oracle."),
     "level_note": ("core (partial): a common placement (one slot per share number) and atomic per-share writes are modelling assumptions; the "
@@ -46,9 +48,12 @@ def drive_cells(ncells, nwriters, events, tag):
     snaps = [None] * nwriters
     surprised = [False] * nwriters
     acked = [[] for _ in range(nwriters)]
+    dirty = [set() for _ in range(nwriters)]     # cells another writer's applied write touched since j's survey
+    clobbers = []
     for e in events:
         if e[0] == "S":
             j = e[1]
+            dirty[j] = set()
             rd = ss.slot_readv(si, list(range(ncells)), [(0, 8)])
             snaps[j] = [struct.unpack(">Q", rd[i][0])[0] for i in range(ncells)]
         else:
@@ -59,10 +64,16 @@ def drive_cells(ncells, nwriters, events, tag):
                 si, secrets, {i: ([(0, 8, b"eq", enc(snaps[j][i]))], [(0, enc(j + 1))], None)}, [(0, 8)])
             if wrote:
                 acked[j].insert(0, i)
+                if i in dirty[j]:
+                    clobbers.append((j, i))
+                for o in range(nwriters):
+                    if o != j:
+                        dirty[o].add(i)
             else:
                 surprised[j] = True
     rd = ss.slot_readv(si, list(range(ncells)), [(0, 8)])
     cells = [struct.unpack(">Q", rd[i][0])[0] for i in range(ncells)]
+    drive_cells.last_clobbers = clobbers
     return cells, surprised, acked
 
 
@@ -91,6 +102,11 @@ def one_case(ctx, idx, ncells, nwriters, events, terms, info, k=None):
     refused = any(surprised)
     ctx.case((ncells, nwriters, tuple(events)) if refused else None, kind="cells:w=%d" % nwriters)
     case = {"cells": ncells, "writers": nwriters, "events": events}
+    # oracle (Props/C12.v applied_write_on_untouched_cell, stated on the real server): an applied write never lands
+    # on a share another writer has replaced since this writer's survey
+    for (j, i) in drive_cells.last_clobbers:
+        ctx.oracle_fail("silent-clobber", "the server applied writer %d's guarded write to share %d although another writer had replaced it "
+                        "since writer %d's survey" % (j, i, j), case=case)
     # oracle: pigeonhole consequence on the real server state
     for kk in range(1, ncells + 1):
         if (nwriters + 1) * kk <= ncells:
